@@ -10,6 +10,7 @@ import (
 	"io"
 	"net"
 	"net/http"
+	"os"
 	"strings"
 	"syscall"
 	"testing"
@@ -488,6 +489,9 @@ func TestVerifC19(t *testing.T) {
 		}
 	}
 	if r.ReplayPath != "" {
+		if c19dReplay(t, r) { // a case of the derived-objects dimension (zz_verif_c19_derived_test.go)
+			return
+		}
 		var cs c19case
 		if err := r.ReplayCase(&cs); err != nil {
 			t.Fatal(err)
@@ -498,6 +502,12 @@ func TestVerifC19(t *testing.T) {
 		return
 	}
 	th := enumx.Thorough()
+	// development aid: VERIF_C19_ONLY=derived runs the derived-objects dimension alone (the run is then marked as not exhaustive)
+	if os.Getenv("VERIF_C19_ONLY") == "derived" {
+		r.NotExhaustive("restricted to the derived-objects dimension by VERIF_C19_ONLY")
+		c19derived(t, r)
+		return
+	}
 	maxP, maxF := 3, 2 // (more fallbacks than primaries matters: worker counts, sequential processing)
 	if th {
 		maxP, maxF = 3, 2
@@ -643,4 +653,7 @@ func TestVerifC19(t *testing.T) {
 			}
 		}
 	}
+	// DERIVED OBJECTS dimension: the same product on every object derived from the constructed client, on every endpoint of the
+	// interface and after the client's setters (zz_verif_c19_derived_test.go)
+	c19derived(t, r)
 }
